@@ -47,17 +47,17 @@ def logs(lines, fiber):
     return d
 
 
-def classify(sc, got, exp):
+def classify(sc, got, exp, ticks=True):
     """Name the specific way F's resume list deviates (stable signature for known-finding matching)."""
     ex = sc.expect
     ib = len(exp) - 2          # index of B's completion in the expected list
     # first deviation
     i = 0
-    while i < len(got) and i < len(exp) and got[i][:2] == exp[i]:
+    while i < len(got) and i < len(exp) and (got[i][:2] == exp[i] if ticks else got[i][1] == exp[i][1]):
         i += 1
     if i < len(got):
         t, v = got[i][0], got[i][1]
-        if i == ib and t < ex["t_b"]:
+        if i == ib and (t < ex["t_b"] if ticks else True):
             # F was resumed while blocked on B, before B's legitimate completion
             if sc.meta.get("abandon") == "immediate" or (v in ("cB", "(:give,cB)") and sc.meta.get("dirt", "none") != "none"):
                 return "immediate-select-left-registration", "a select that returned at once left a live pending registration: F was resumed at tick %d with %s" % (t, v)
@@ -82,15 +82,17 @@ def classify(sc, got, exp):
     return "missing-resume", "F was resumed only %d times, expected %d (never resumed by %s)" % (len(got), len(exp), exp[len(got)])
 
 
-def check(sc, res):
-    """-> list of (sig, what) problems for one scenario result"""
+def check(sc, res, ticks=True):
+    """-> list of (sig, what) problems for one scenario result.  ticks=False (late-wake mode: the loop wakes up late, so ticks
+    are not predictable): only the sequence of values each fiber is resumed with is compared."""
     probs = []
     lines, status = res["lines"], res["status"]
     ex = sc.expect
     got = resumes(lines, "F")
     exp = [tuple(x) for x in ex["F"]]
-    if [g[:2] for g in got] != exp:
-        probs.append(classify(sc, got, exp))
+    b_log = ex["b_log"]
+    if ([g[:2] for g in got] != exp) if ticks else ([g[1] for g in got] != [e[1] for e in exp]):
+        probs.append(classify(sc, got, exp, ticks))
     else:
         fl = logs(lines, "F")
         if ex["a_log"] == "ERR":
@@ -98,11 +100,11 @@ def check(sc, res):
                 probs.append(("a-result", "the invalid call A returned %r, expected an error" % (fl.get("f0"),)))
         elif fl.get("f0", (0, None))[1] != ex["a_log"]:
             probs.append(("a-result", "A returned %r expected %r" % (fl.get("f0"), ex["a_log"])))
-        if fl.get("f1", (0, None))[1] != ex["b_log"]:
-            probs.append(("b-result", "B returned %r expected %r" % (fl.get("f1"), ex["b_log"])))
+        if fl.get("f1", (0, None))[1] != b_log:
+            probs.append(("b-result", "B returned %r expected %r" % (fl.get("f1"), b_log)))
     for f, want in ex.get("others", {}).items():
         g = [x[:2] for x in resumes(lines, f)]
-        if g != [tuple(w) for w in want] and not probs:
+        if ((g != [tuple(w) for w in want]) if ticks else ([x[1] for x in g] != [w[1] for w in want])) and not probs:
             probs.append(("bystander-resumed", "fiber %s (abandoned its wait at tick 0, blocked elsewhere) resumed %r, expected %r" % (f, g, want)))
     # generation counter as observed: strictly increasing per fiber over executed tasks
     last = {}
@@ -123,12 +125,14 @@ def check(sc, res):
     return probs
 
 
-def check_resumes(sc, res):
+def check_resumes(sc, res, ticks=True):
     """generic: exact resume lists for the fibers named in sc.expect['resumes']"""
     probs = []
     for f, exp in sc.expect.get("resumes", {}).items():
         got = [g[:2] for g in resumes(res["lines"], f)]
         exp = [tuple(e) for e in exp]
+        if not ticks:
+            got, exp = [g[1] for g in got], [e[1] for e in exp]
         if got != exp:
             probs.append(("resume-list-differs:" + sc.id, "fiber %s resumed %r, expected %r" % (f, got, exp)))
     if res["status"] != "ok" and not probs:
